@@ -2,7 +2,6 @@
    matrix Mz (sums of FIX_* constants); Mz / 2^13 is within 1/8192 of sqrt(8) * dctA (Interval);
    the 2-D graph fdct_lin2d is the Kronecker square of Mz. *)
 From Coq Require Import List ZArith Lia Reals Lra.
-From Interval Require Import Tactic.
 From LJT Require Import gen.GenDctConst model.Quant model.Dct proofs.DctRound proofs.RmsBound proofs.DctOrth.
 Import ListNotations.
 
@@ -42,17 +41,11 @@ Proof. rewrite <- sqrt_mult by lra. replace (8 * / 8) with 1 by field. apply sqr
 
 Definition acc_delta : R := 3 / 16384.
 
-Lemma matrix_accuracy_entry : forall k i, (k < 8)%nat -> (i < 8)%nat -> Rabs (mR k i - aR k i) <= acc_delta.
-Proof.
-  intros k i Hk Hi. unfold mR, aR, dctA, ck, ang, acc_delta.
-  assert (Ck : (k = 0 \/ k = 1 \/ k = 2 \/ k = 3 \/ k = 4 \/ k = 5 \/ k = 6 \/ k = 7)%nat) by lia.
-  assert (Ci : (i = 0 \/ i = 1 \/ i = 2 \/ i = 3 \/ i = 4 \/ i = 5 \/ i = 6 \/ i = 7)%nat) by lia.
-  clear Hk Hi.
-  destruct Ck as [->|[->|[->|[->|[->|[->|[->| ->]]]]]]]; destruct Ci as [->|[->|[->|[->|[->|[->|[->| ->]]]]]]];
-    cbn [Nat.eqb Mz nth linMcols INR Nat.mul Nat.add].
-  all: try (rewrite <- Rmult_assoc, sqrt8_inv).
-  all: interval with (i_prec 30).
-Qed.
+(* the numeric fact about the cosines: every entry of the flow-graph matrix / 2^13 is within acc_delta of sqrt 8 * dctA.
+   It is PROVED in proofs/DctAccInterval.v with the Interval tactic (coqc only: coqchk needs > 40 min for Interval's
+   computations); everything below and in DctE1.v / RmsFinal.v takes it as an explicit hypothesis. *)
+Definition matrix_accuracy_fact : Prop :=
+  forall k i, (k < 8)%nat -> (i < 8)%nat -> Rabs (mR k i - aR k i) <= acc_delta.
 
 (* |Mz| <= 11363 by inspection of the table *)
 Lemma Mz_bound k i : (k < 8)%nat -> (i < 8)%nat -> (- 11363 <= Mz k i <= 11363)%Z.
@@ -64,12 +57,12 @@ Proof.
     cbn [Mz nth linMcols]; lia.
 Qed.
 
-Lemma matrix_accuracy_cases : forall k i, (k < 8)%nat -> (i < 8)%nat ->
+Lemma matrix_accuracy_cases : matrix_accuracy_fact -> forall k i, (k < 8)%nat -> (i < 8)%nat ->
   Rabs (mR k i - aR k i) <= acc_delta /\ Rabs (mR k i) <= 14 / 10 /\ Rabs (aR k i) <= 1415 / 1000.
 Proof.
-  intros k i Hk Hi. pose proof (matrix_accuracy_entry k i Hk Hi) as A.
+  intros Hacc k i Hk Hi. pose proof (Hacc k i Hk Hi) as A.
   assert (B : Rabs (mR k i) <= 11363 / 8192).
-  { unfold mR. destruct (Mz_bound k i Hk Hi) as [B1 B2]. apply IZR_le in B1, B2. rewrite opp_IZR in B1.
+  { unfold mR. destruct (Mz_bound k i Hk Hi) as [B1 B2]. apply IZR_le in B1, B2.
     apply Rabs_le. split; lra. }
   split; [exact A|]. split; [lra|].
   replace (aR k i) with (mR k i - (mR k i - aR k i)) by ring.
